@@ -48,6 +48,30 @@ struct PackedMatrixBase {
 }
 
 impl PackedMatrixBase {
+    /// Create the packed form of a matrix that has no elements.
+    ///
+    /// GEMM operations return before accessing packed data if any dimension
+    /// of the problem is zero, so there is nothing to pack.
+    fn empty(
+        nm_size: usize,
+        depth_size: usize,
+        panel_size: usize,
+        depth_block: usize,
+        kernel_name: &'static str,
+    ) -> Self {
+        PackedMatrixBase {
+            data: PackingBuffer::new(),
+            panel_size,
+            depth_block,
+            depth_block_stride: 0,
+            panel_stride: 0,
+            tail_panel_stride: 0,
+            nm_size,
+            depth_size,
+            kernel_name,
+        }
+    }
+
     /// Retrieve a block from the packed matrix as a `(data, panel_stride)` tuple.
     ///
     /// `nm_range` is the range from the M or N dimensions and `depth_block_idx`
@@ -176,6 +200,19 @@ pub fn prepack_a<A: Alloc, LhsT, RhsT, OutT>(
 ) -> PackedAMatrix<LhsT> {
     let depth_block = depth_block_size::<RhsT>(a.cols(), None);
 
+    if a.rows() == 0 || a.cols() == 0 {
+        return PackedAMatrix {
+            base: PackedMatrixBase::empty(
+                a.rows(),
+                a.cols(),
+                kernel.mr(),
+                depth_block,
+                kernel.name(),
+            ),
+            _marker: PhantomData,
+        };
+    }
+
     let layout = kernel.packed_a_layout(a, a.rows(), depth_block, None);
     let tail_layout = if !a.cols().is_multiple_of(depth_block) {
         Some(kernel.packed_a_layout(a, a.rows(), a.cols() % depth_block, None))
@@ -231,6 +268,19 @@ pub fn prepack_b<A: Alloc, LhsT, RhsT, OutT>(
     b: Matrix<RhsT>,
 ) -> PackedBMatrix<RhsT> {
     let depth_block = depth_block_size::<RhsT>(b.rows(), None);
+
+    if b.rows() == 0 || b.cols() == 0 {
+        return PackedBMatrix {
+            base: PackedMatrixBase::empty(
+                b.cols(),
+                b.rows(),
+                kernel.nr(),
+                depth_block,
+                kernel.name(),
+            ),
+            _marker: PhantomData,
+        };
+    }
 
     let layout = kernel.packed_b_layout(depth_block, b.cols(), None);
     let tail_layout = if !b.rows().is_multiple_of(depth_block) {
